@@ -715,7 +715,40 @@ func (x *Exec) envFor(st *State, fr *Frame) *Env {
 	return e
 }
 
+// autoRangeInv: for range-over-slice loops the hidden index stays in [-1, len): generated without annotation.
+func (x *Exec) autoRangeInv(st *State, fr *Frame, hdr *ssa.BasicBlock) *T {
+	var idxAlloc *ssa.Alloc
+	var lenV ssa.Value
+	for _, ins := range hdr.Instrs {
+		switch n := ins.(type) {
+		case *ssa.Store:
+			if a, ok := n.Addr.(*ssa.Alloc); ok && a.Comment == "rangeindex" {
+				idxAlloc = a
+			}
+		case *ssa.BinOp:
+			if n.Op == token.LSS {
+				lenV = n.Y
+			}
+		}
+	}
+	if idxAlloc == nil || lenV == nil {
+		return nil
+	}
+	iv, ok := fr.cells[idxAlloc]
+	if !ok {
+		return nil
+	}
+	lv, ok := fr.regs[lenV]
+	if !ok {
+		return nil
+	}
+	return And(Le(IntLit(-1), iv.T()), Or(Lt(iv.T(), lv.T()), Eq(iv.T(), IntLit(-1))))
+}
+
 func (x *Exec) checkInvariants(st *State, fr *Frame, lc *LoopContract, n int, kind string, hdr *ssa.BasicBlock) {
+	if g := x.autoRangeInv(st, fr, hdr); g != nil {
+		st.oblige(kind, fmt.Sprintf("L%d:auto-range", n), g, hdr.Instrs[0].Pos(), "range index within bounds (generated)", x.safetyProps())
+	}
 	if lc == nil {
 		return
 	}
@@ -740,6 +773,9 @@ func propsOr(a, b []string) []string {
 }
 
 func (x *Exec) assumeInvariants(st *State, fr *Frame, lc *LoopContract, n int, hdr *ssa.BasicBlock) {
+	if g := x.autoRangeInv(st, fr, hdr); g != nil {
+		st.Assume(g)
+	}
 	if lc == nil {
 		return
 	}
